@@ -374,11 +374,11 @@ Section Wf.
       len <= n -> closers_safe_b g starts ends = true ->
       wf n (MR (mr_start opening) mi None [(mr_end opening, k_indent g)] ch) = true ->
       mr_start opening <= mr_end opening -> mr_end opening <= mi -> mi <= len ->
-      (forall c, In c ch -> mr_start c < len) ->
+      (forall c, In c ch -> mr_start c <= mi) ->
       rb_loop g toks rec fl len opening ti starts ends pers terms nested mi ch = ROk r ->
       exists i k ch' pb,
         wf n (MR (mr_start opening) i None [(mr_end opening, k_indent g)] ch') = true /\
-        (forall c, In c ch' -> mr_start c < len) /\
+        (forall c, In c ch' -> mr_start c <= i) /\
         (nested = false -> ch' = ch) /\ mi <= i /\ i < len /\ codeat i /\
         r = bracket_res pb (mr_start opening) (mr_end opening) i k ch'.
     Proof.
@@ -401,13 +401,13 @@ Section Wf.
         cbn [mr_start mr_end one_token] in *.
         exists j, k, ch, p. repeat split; auto; try lia.
         + eapply wf_extend; [exact Hwf|lia|lia].
+        + intros c Hc. specialize (Hch c Hc). lia.
         + unfold bracket_res, bracket_R. destruct p; inversion H; reflexivity.
       - destruct (mposition g starts mt) as [ti'|]; [|discriminate].
         inv_bind H. rename a into inner.
         pose proof (q_wf _ _ _ Hqm) as Hwm.
-        pose proof (q_lt _ _ _ Hqm J2 Ehm) as Hsm.
         eapply IH in Ha; [|exact Hl|exact Hsafe|apply opening_inv; exact Hwm|lia|lia|lia|].
-        2:{ intros c [<-|[]]. exact Hsm. }
+        2:{ intros c [<-|[]]. lia. }
         destruct Ha as (i' & k' & ch'' & pb' & W1 & W2 & W3 & W4 & W5 & W6 & ->).
         destruct (bracket_res_facts pb' (mr_start m) (mr_end m) i' k' ch'') as (F1 & F2 & F3 & F4 & F5 & F6).
         pose proof (bracket_res_wf pb' _ _ _ k' _ W1 ltac:(lia)) as Hwi.
@@ -419,25 +419,26 @@ Section Wf.
         + destruct nested.
           * rewrite <- F2. eapply wf_add_child; [exact Hwf|exact Hwi|rewrite F1; lia].
           * eapply wf_extend; [exact Hwf|lia|lia].
-        + destruct nested; [|exact Hch].
-          intros c Hc. apply in_app_or in Hc as [Hc|[<-|[]]]; [auto|rewrite F1; exact Hsm].
+        + destruct nested.
+          * intros c Hc. apply in_app_or in Hc as [Hc|[<-|[]]]; [specialize (Hch c Hc); lia|rewrite F1; lia].
+          * intros c Hc. specialize (Hch c Hc). lia.
     Qed.
 
     Lemma resolve_bracket_wf fl len opening opener starts ends pers terms nested r :
       len <= n -> closers_safe_b g starts ends = true -> wf n opening = true ->
-      mr_end opening <= len -> mr_start opening < len ->
+      mr_end opening <= len ->
       resolve_bracket g toks rec fl len opening opener starts ends pers terms nested = ROk r ->
       exists i k ch' pb,
         wf n (MR (mr_start opening) i None [(mr_end opening, k_indent g)] ch') = true /\
-        (forall c, In c ch' -> mr_start c < len) /\
+        (forall c, In c ch' -> mr_start c <= i) /\
         (nested = false -> ch' = [opening]) /\ mr_end opening <= i /\ i < len /\ codeat i /\
         r = bracket_res pb (mr_start opening) (mr_end opening) i k ch'.
     Proof.
-      unfold resolve_bracket. intros Hl Hsafe Hw He Hs H.
+      unfold resolve_bracket. intros Hl Hsafe Hw He H.
       destruct (mposition g starts opener); [|discriminate].
       destruct (wf_span n opening Hw) as [H1 H2].
       eapply rb_loop_wf in H; [exact H|exact Hl|exact Hsafe|apply opening_inv; exact Hw|lia|lia|lia|].
-      intros c [<-|[]]. exact Hs.
+      intros c [<-|[]]. lia.
     Qed.
 
     (* ---------------------------------------------------------- next_ex_bracket_match / greedy_match *)
@@ -489,8 +490,7 @@ Section Wf.
         rewrite has_match_empty_at. discriminate. }
       inv_bind H. rename a into b.
       assert (Hqm : Q j len m0) by (eapply Hrec; [|exact Hl|exact J4]; lia).
-      pose proof (q_lt _ _ _ Hqm J2 Ehm) as Hsm.
-      apply resolve_bracket_wf in Ha; [|exact Hl|exact Hsafe|exact (q_wf _ _ _ Hqm)|lia|exact Hsm].
+      apply resolve_bracket_wf in Ha; [|exact Hl|exact Hsafe|exact (q_wf _ _ _ Hqm)|lia].
       destruct Ha as (i & kk & ch' & pb & W1 & W2 & W3 & W4 & W5 & W6 & ->).
       destruct (bracket_res_facts pb (mr_start m0) (mr_end m0) i kk ch') as (F1 & F2 & F3 & F4 & F5 & F6).
       pose proof (bracket_res_wf pb _ _ _ kk _ W1 ltac:(lia)) as Hwb.
@@ -499,7 +499,7 @@ Section Wf.
       destruct Hch as [C1 C2]. split.
       - rewrite <- F2. eapply wf_add_child; [exact C1|exact Hwb|rewrite F1; lia].
       - intros c Hc. apply in_app_or in Hc as [Hc|[<-|[]]]; [auto|].
-        rewrite F1, F2. replace (i + 1 - 1) with i by lia. repeat split; auto. lia.
+        rewrite F1, F2. replace (i + 1 - 1) with i by lia. repeat split; auto; lia.
     Qed.
 
     Hypothesis Hbr : brackets_safe_b g = true.
@@ -640,9 +640,12 @@ Section Wf.
       si_b : si <= s_matched st /\ s_matched st <= s_max st /\ s_max st <= len;
       si_t : mode_T d si st }.
 
+    Definition RetOK (si len : N) (m : mr) : Prop :=
+      Q si len m /\ (is_some (mr_matched m) = true -> mr_start m < mr_end m).
+
     Lemma seq_body_wf fl d len si terms st e r :
       len <= n -> SI d si len st -> seq_body fl d len si terms st e = ROk r ->
-      match r with Cont st' => SI d si len st' | Ret m => Q si len m end.
+      match r with Cont st' => SI d si len st' | Ret m => RetOK si len m end.
     Proof.
       unfold seq_body. intros Hl Hsi H. pose proof Hsi as [W C (I1 & I2 & I3) T].
       inv_bind H. rename a into idx'.
@@ -651,8 +654,9 @@ Section Wf.
       destruct (s_max st <=? idx') eqn:Emax; b2p.
       - inv_bind H. destruct a; [inversion H; subst; exact Hsi|].
         destruct (pmode_eqb (sq_mode d) Strict || (s_matched st =? si)) eqn:E1;
-          inversion H; subst; [apply Q_empty; lia|].
+          inversion H; subst; [split; [apply Q_empty; lia|cbn; discriminate]|].
         apply orb_false_iff in E1 as [_ E1]. b2p.
+        split; [|cbn; lia].
         apply Q_at; [|exact C|reflexivity].
         apply wf_name; [|left; lia].
         apply wf_add_ins with (e := s_matched st); [exact W|lia|lia|exact Hn].
@@ -662,11 +666,11 @@ Section Wf.
         destruct Hbe as (E1 & E2 & E3).
         destruct (negb (has_match em)) eqn:Ehm.
         + inv_bind H. destruct a0; [inversion H; subst; exact Hsi|].
-          destruct (pmode_eqb (sq_mode d) Strict) eqn:Es; [inversion H; subst; apply Q_empty; lia|].
+          destruct (pmode_eqb (sq_mode d) Strict) eqn:Es; [inversion H; subst; split; [apply Q_empty; lia|cbn; discriminate]|].
           destruct (pmode_eqb (sq_mode d) GreedyOnceStarted && (s_matched st =? si)) eqn:Eg;
-            [inversion H; subst; apply Q_empty; lia|].
+            [inversion H; subst; split; [apply Q_empty; lia|cbn; discriminate]|].
           destruct (s_matched st =? si) eqn:Em; b2p.
-          * inversion H; subst. apply Q_at; [|intros c []|reflexivity].
+          * inversion H; subst. split; [|cbn; lia]. apply Q_at; [|intros c []|reflexivity].
             apply wf_unparsable; lia.
           * inv_bind H. inversion H; subst. rename a0 into u.
             assert (Hu : s_matched st <= u /\ u < s_max st).
@@ -676,7 +680,7 @@ Section Wf.
               - lia.
               - assert (u <= s_max st - 1) by (eapply skip_fwd_stop; [|exact T|exact Ha3]; lia). lia.
               - congruence. }
-            apply Q_at; [| |reflexivity].
+            split; [|cbn; discriminate]. apply Q_at; [| |reflexivity].
             -- exact (wf_add_child n _ _ _ _ (unparsable g u (s_max st)) W
                         ltac:(apply wf_unparsable; lia) ltac:(cbn; lia)).
             -- intros c Hc. apply in_app_or in Hc as [Hc|[<-|[]]]; [auto|cbn; lia].
@@ -710,7 +714,7 @@ Section Wf.
 
     Lemma seq_elem_wf fl d len si terms st e r :
       len <= n -> SI d si len st -> seq_elem g toks rec fl d len si terms st e = ROk r ->
-      match r with Cont st' => SI d si len st' | Ret m => Q si len m end.
+      match r with Cont st' => SI d si len st' | Ret m => RetOK si len m end.
     Proof.
       intros Hl Hsi H. rewrite seq_elem_unfold in H. inv_bind H.
       destruct (n_node a); try (eapply seq_body_wf; eassumption);
@@ -719,7 +723,7 @@ Section Wf.
 
     Lemma seq_loop_wf fl d len si terms es : forall st r,
       len <= n -> SI d si len st -> seq_loop g toks rec fl d len si terms st es = ROk r ->
-      match r with Cont st' => SI d si len st' | Ret m => Q si len m end.
+      match r with Cont st' => SI d si len st' | Ret m => RetOK si len m end.
     Proof.
       induction es as [|e es IH]; intros st r Hl Hsi H; cbn [seq_loop] in H.
       - inversion H; subst. exact Hsi.
@@ -729,7 +733,7 @@ Section Wf.
 
     Lemma match_sequence_wf fl d len idx terms m :
       idx <= len -> len <= n -> match_sequence g toks rec fl d len idx terms = ROk m ->
-      Q idx len m.
+      RetOK idx len m.
     Proof.
       unfold match_sequence. intros Hi Hl H.
       inv_bind H. rename a into max0.
@@ -752,12 +756,80 @@ Section Wf.
         pose proof (skip_fwd_spec toks _ _ _ _ Ha1) as [F1 F2].
         pose proof (skip_back_spec toks _ _ _ _ Ha2) as [K1 K2].
         destruct (i <? stop) eqn:E; b2p; inversion H; subst.
-        + apply Q_at; [| |reflexivity].
+        + split; [|cbn; discriminate]. apply Q_at; [| |reflexivity].
           * exact (wf_add_child n _ _ _ _ (unparsable g i stop) W1
                      ltac:(apply wf_unparsable; lia) ltac:(cbn; lia)).
           * intros c Hc. apply in_app_or in Hc as [Hc|[<-|[]]]; [auto|cbn; lia].
-        + apply Q_at; auto.
-      - inversion H; subst. apply Q_at; auto.
+        + split; [|cbn; discriminate]. apply Q_at; auto.
+      - inversion H; subst. split; [|cbn; discriminate]. apply Q_at; auto.
+    Qed.
+
+    (* ---------------------------------------------------------- Bracketed *)
+    Lemma match_bracketed_wf fl self found bs be pers gaps d len idx terms m :
+      (forall sb eb, found = true -> bs = Some sb -> be = Some eb -> closers_safe_b g [sb] [eb] = true) ->
+      idx <= len -> len <= n ->
+      match_bracketed g toks rec fl self found bs be pers gaps d len idx terms = ROk m -> Q idx len m.
+    Proof.
+      unfold match_bracketed. intros Hsafe Hi Hl H.
+      destruct found; cbn [negb] in H; [|discriminate].
+      destruct bs as [sb|]; [|discriminate]. destruct be as [eb|]; [|discriminate].
+      specialize (Hsafe sb eb eq_refl eq_refl eq_refl).
+      inv_bind H. rename a into sm.
+      assert (Hqs : Q idx len sm) by (eapply Hrec; eassumption).
+      assert (Hbs : B idx len sm) by (eapply HrecB; eassumption). destruct Hbs as (S1 & S2 & S3).
+      destruct (negb (has_match sm)) eqn:Ehs; [inversion H; subst; apply Q_empty; lia|].
+      apply negb_false_iff in Ehs.
+      inv_bind H. rename a into bm.
+      apply resolve_bracket_wf in Ha0; [|exact Hl|exact Hsafe|exact (q_wf _ _ _ Hqs)|lia].
+      destruct Ha0 as (i & k & ch' & pb & W1 & W2 & W3 & W4 & W5 & W6 & ->).
+      specialize (W3 eq_refl). subst ch'.
+      destruct (bracket_res_facts pb (mr_start sm) (mr_end sm) i k [sm]) as (F1 & F2 & F3 & F4 & F5 & F6).
+      rewrite F1, F2, F3, F4, F5 in H. clear F1 F2 F3 F4 F5 F6.
+      inv_bind H. clear Ha0. replace (i + 1 - 1) with i in H by lia.
+      inv_bind H. rename a0 into i1.
+      assert (Hi1 : mr_end sm <= i1 /\ i1 <= i).
+      { destruct gaps; [|inversion Ha0; subst; lia].
+        pose proof (skip_fwd_spec toks _ _ _ _ Ha0) as [X1 _]. split; [exact X1|].
+        eapply skip_fwd_stop; [|exact W6|exact Ha0]. lia. }
+      inv_bind H. rename a0 into e1.
+      assert (He1 : i1 <= e1 /\ e1 <= i).
+      { destruct gaps; [|inversion Ha1; subst; lia].
+        pose proof (skip_back_spec toks _ _ _ _ Ha1) as [X1 X2]. lia. }
+      inv_bind H. clear Ha2. inv_bind H. rename a1 into cm.
+      assert (Hie : i1 <= e1) by lia.
+      pose proof (match_sequence_spec g toks rec HrecB _ _ _ _ _ _ Hie Ha2) as (C1 & C2 & C3).
+      apply match_sequence_wf in Ha2; [|lia|lia]. destruct Ha2 as [Hqc Hnamed].
+      destruct (negb (mr_end cm =? e1) && pmode_eqb (sq_mode d) Strict);
+        [inversion H; subst; apply Q_empty_any; lia|].
+      destruct (negb gaps && (mr_end cm =? i)); [discriminate|].
+      inversion H; subst. clear H.
+      set (mt := if pb then Some (MKind (k_bracketed g)) else None).
+      set (X := if is_some (mr_matched cm) then [cm] else mr_ch cm).
+      assert (HX : forall x, In x X -> mr_start x < e1).
+      { intros x Hx. unfold X in Hx. destruct (is_some (mr_matched cm)) eqn:En.
+        - destruct Hx as [<-|[]]. specialize (Hnamed eq_refl). lia.
+        - exact (q_ch _ _ _ Hqc x Hx). }
+      (* the children in span order: opening, content, closing *)
+      pose proof (opening_inv sm (q_wf _ _ _ Hqs)) as V0.
+      assert (V1 : exists E, E <= e1 /\ wf n (MR (mr_start sm) E None [(mr_end sm, k_indent g)] ([sm] ++ X)) = true).
+      { exists (mr_end cm). split; [exact C3|]. unfold X. destruct (is_some (mr_matched cm)).
+        - apply wf_add_child with (e := mr_end sm); [exact V0|exact (q_wf _ _ _ Hqc)|lia].
+        - apply wf_cat_children with (e := mr_end sm); [exact V0|exact (q_wf _ _ _ Hqc)|lia]. }
+      destruct V1 as (E & HE & V1).
+      apply (wf_add_ins n _ _ _ _ i [k_dedent g]) in V1; [|lia|lia|exact Hn].
+      apply (wf_add_child n _ _ _ _ (one_token i k)) in V1; [|apply wf_one_token; lia|cbn; lia].
+      cbn [mr_end one_token app map] in V1.
+      assert (V2 : wf n (MR (mr_start sm) (i + 1) mt [(mr_end sm, k_indent g); (i, k_dedent g)]
+                            ([sm] ++ X ++ [one_token i k])) = true).
+      { unfold mt. change (sm :: X ++ [one_token i k]) with ([sm] ++ X ++ [one_token i k]) in V1.
+        destruct pb; [|exact V1]. apply wf_name; [exact V1|right; left; discriminate]. }
+      apply wf_move in V2; [|intros x Hx; specialize (HX x Hx); cbn; lia].
+      clear V1. unfold X in V2, HX. clear X.
+      destruct (is_some (mr_matched cm)); (split; cbn [mr_ch mr_start];
+        [ exact V2
+        | intros c [<-|[<-|Hc]]; [lia|cbn; lia|specialize (HX c Hc); lia]
+        | intros _ _; lia
+        | intros Hc _; exact (q_st _ _ _ Hqs Hc Ehs) ]).
     Qed.
   End WithRec.
 End Wf.
